@@ -528,7 +528,7 @@ def replay(ob):
                 out = T.interp_1d_conservative(np.array([[ph]]), np.array([[t1, t2]]), edges)
                 tot = float(np.nansum(out))
                 line = f"cell theta=({t1}, {t2}) phi={ph}; bin edges {edges.tolist()} -> output {np.asarray(out).tolist()} sum={tot}"
-                if abs(tot - ph) > 1e-9 * max(1, abs(ph)):
+                if abs(tot - ph) > 1e-9 * abs(ph):  # conservation is linear in phi: relative tolerance
                     return {"confirmed": True, "text": "\n".join([line, "REAL CODE: the sum over the bins differs from the cell's content although theta lies inside the span of the bins"])}
                 tried.append(line)
         return {"confirmed": False, "text": "\n".join(tried[:6] + ["conservation holds natively on the model's cell for every bin set tried"])}
